@@ -385,13 +385,24 @@ inductive Op where
   | dump
   | commit
   | rollback
+  | commitRaise     -- `commit()` while a callback of the commit path (the versioned zone's pruning policy) raises
   deriving Repr
+
+/-- `commit()` during which a user callback consulted by the commit path raises (`versioned.Zone._commit_version_unlocked`
+-> `_prune_versions_unlocked` -> pruning policy): the version is withdrawn, the write ended, the exception re-raised;
+nothing is published.  A transaction that changed nothing, and a reader, never reach the callback. -/
+def endTxnRaise (s : Txn) : Txn × Res :=
+  if s.ended then (s, .error .alreadyEnded)
+  else if s.readOnly then ({ s with ended := true }, .ok .unit)
+  else if s.changed then ({ s with ended := true }, .error .veto)
+  else ({ s with ended := true }, .ok .unit)
 
 /-- one call of the public API -/
 def step (cfg : Cfg) (s : Txn) (op : Op) : Txn × Res :=
   match op with
   | .commit => endTxn s true
   | .rollback => endTxn s false
+  | .commitRaise => endTxnRaise s
   | .add args veto =>
     if s.ended then (s, .error .alreadyEnded) else if s.readOnly then (s, .error .readOnly)
     else txnAdd cfg s false args veto
@@ -486,6 +497,7 @@ inductive SOp where
   | dump
   | commit
   | rollback
+  | commitRaise
   deriving Repr
 
 structure STxn where
@@ -560,10 +572,18 @@ def sEnd (t : STxn) (commit : Bool) : STxn × Res :=
   else if commit ∧ t.touched then ({ t with zone := t.ver, ended := true }, .ok .unit)   -- nothing touched: nothing published
   else ({ t with ended := true }, .ok .unit)
 
+/-- a commit that fails: all or nothing, so nothing -/
+def sEndRaise (t : STxn) : STxn × Res :=
+  if t.ended then (t, .error .alreadyEnded)
+  else if t.readOnly then ({ t with ended := true }, .ok .unit)
+  else if t.touched then ({ t with ended := true }, .error .veto)
+  else ({ t with ended := true }, .ok .unit)
+
 def sStep (cfg : Cfg) (t : STxn) (op : SOp) : STxn × Res :=
   match op with
   | .commit => sEnd t true
   | .rollback => sEnd t false
+  | .commitRaise => sEndRaise t
   | .fail e =>
     if t.ended then (t, .error .alreadyEnded) else if t.readOnly then (t, .error .readOnly) else (t, .error e)
   | .changed =>
@@ -637,6 +657,7 @@ def toSOp : Op → SOp
   | .dump => .dump
   | .commit => .commit
   | .rollback => .rollback
+  | .commitRaise => .commitRaise
 
 def sRun (cfg : Cfg) : STxn → List SOp → STxn × List Res
   | t, [] => (t, [])
